@@ -152,9 +152,13 @@ func genC15(r *core.Rand, run int) *MuxScenario {
 		{"grpc", "proto", "unary"}, {"grpc", "proto", "client"}, {"grpc", "proto", "server"}, {"grpc", "proto", "bidi"}, {"grpc", "json", "bidi"},
 		{"grpcweb", "proto", "unary"}, {"grpcweb", "proto", "server"}, {"grpcweb", "proto", "bidi"}, {"grpcwebtext", "proto", "bidi"},
 		{"http", "json", "unary"}, {"http", "json", "client"}, {"http", "json", "server"}, {"http", "json", "bidi"}, {"http", "proto", "bidi"}, {"http", "proto", "client"},
+		{"ws", "json", "chat"}, {"ws", "json", "bidi"},
 	}
 	c := combos[r.Intn(len(combos))]
 	sp := ReqSpec{ID: 1, Proto: c.proto, Codec: c.codec, Method: c.method, Weight: 2}
+	if c.proto == "ws" {
+		sp.PathVar, sp.WSClose = "lobby", "normal"
+	}
 	mi := methods[sp.Method]
 	n := 1
 	if mi.ClientS {
@@ -333,7 +337,7 @@ func oracleCancel(mr *muxRun, rs *reqState, cnt *[core.NumCounters]int) *Violati
 	// so a Send or Recv that starts after the cancellation fails (over
 	// net/http a small Write to a dead connection would otherwise report
 	// success for ever)
-	if sp.Proto != "http" {
+	if strings.HasPrefix(sp.Proto, "grpc") {
 		for _, c := range l.Calls {
 			if c.Start > rs.ctxCancelAt && c.Err == nil {
 				return fail("stream-call-after-cancel-succeeded", "a %s that started at step %d, after the context had been cancelled at step %d, returned nil", map[byte]string{'R': "Recv", 'S': "Send"}[c.Kind], c.Start, rs.ctxCancelAt)
